@@ -18,6 +18,8 @@ Clauses
   alias     a resolved alias presents its target's kind, docstring, labels, parameters and members; member paths are
             rebased under the alias's own path; (grounded in CPython: parameter names/kinds = inspect.signature,
             class member names = vars(cls))
+  class     names bound in a class body, import statements included, are the class's members; members that are aliases
+            resolve to what CPython bound there
   total     loading and resolving never raises
 
 Tolerance (DESIGN 4/C05, `is_wildcard_exposed` docstring): after `from pkg import *` (pkg without `__all__`) the
@@ -55,8 +57,8 @@ ASSUMPTIONS = [
     "unsupported shadowing, docs/guide/users/recommendations/python-code.md)",
     "names of sub-modules of a wildcard source package (without __all__) that the package does not import explicitly are "
     "not compared (import-history dependent at runtime; documented special case of is_wildcard_exposed)",
-    "one statement per line (Griffe orders re-bindings by line number); only module-level imports; no TYPE_CHECKING "
-    "guards, no conditional definitions, no external packages",
+    "statements may share a line (`a = 1; from .m import x`); explicit imports also occur in class bodies; no "
+    "TYPE_CHECKING guards, no conditional definitions, no external packages",
     "order and duplicates of __all__ are not compared (irrelevant to `import *`); a name used to splice another module's "
     "__all__ (`x_all`, `mod`) is bound exactly once in the module, as in the documented forms",
     "the simulated namespace in vp/gen/c05_pkg.py only decides which names the generator may mention, which names fall "
@@ -100,7 +102,9 @@ def classify(value, allmap) -> dict:
     raise HarnessError(f"untagged runtime object {value!r}")
 
 
-CLASS_DUNDERS_KEPT = ("__init__",)
+CLASS_DUNDERS = frozenset(
+    ("__module__", "__qualname__", "__doc__", "__dict__", "__weakref__", "__annotations__", "__firstlineno__", "__static_attributes__")
+)
 
 
 def cpython_view(case, top, mods) -> dict:
@@ -117,6 +121,7 @@ def cpython_view(case, top, mods) -> dict:
         if "__all__" in ns:
             exports = set(ns["__all__"])
         view[mod["path"]] = {"names": names, "exports": exports, "raw": ns}
+    view["$allmap"] = allmap
     return view
 
 
@@ -265,6 +270,8 @@ def check_case(case) -> list[Fail]:
                         )
                 if gm.is_alias:
                     fails += _alias_presents(gm, ft, cmod["raw"][n], norm, src_text)
+                elif gm.is_class and isinstance(cmod["raw"][n], type) and cobj["paths"] == {f"{full}.{n}"}:
+                    fails += _class_imports(gm, cmod["raw"][n], allmap_of(cview), norm, src_text, top)
             # ---- exports
             gexp = gmod.exports
             cexp = cmod["exports"]
@@ -291,6 +298,38 @@ def check_case(case) -> list[Fail]:
         return fails
     finally:
         shutil.rmtree(own or root, ignore_errors=True)
+
+
+def allmap_of(cview):
+    return cview["$allmap"]
+
+
+def _class_imports(gcls, ccls, allmap, norm, src_text, top) -> list[Fail]:
+    """Clause `class`: names bound in a class body (import statements included) are the class's members, and members
+    that are aliases resolve to what CPython bound there."""
+    from griffe import AliasResolutionError, CyclicAliasError
+
+    fails = []
+    cns = {n: v for n, v in vars(ccls).items() if n not in CLASS_DUNDERS}
+    gnames = set(gcls.members)
+    where = norm(gcls.path)
+    for n in sorted(set(cns) - gnames):
+        fails.append(Fail("class", "missing", f"class {where}: CPython binds {norm(n)!r} in the class body, Griffe has no such member; members={norm(sorted(gnames))}\n{src_text()}"))
+    for n in sorted(gnames - set(cns)):
+        fails.append(Fail("class", "extra", f"class {where}: Griffe shows member {norm(n)!r} that the class body does not bind; vars={norm(sorted(cns))}\n{src_text()}"))
+    for n in sorted(gnames & set(cns)):
+        gm = gcls.members[n]
+        if not gm.is_alias:
+            continue
+        cobj = classify(cns[n], allmap)
+        try:
+            ft = gm.final_target
+        except (AliasResolutionError, CyclicAliasError) as exc:
+            fails.append(Fail("class", f"unresolved:{type(exc).__name__}", f"{where}.{norm(n)}: alias to {norm(gm.target_path)!r} does not resolve; CPython: {norm(sorted(cobj['paths']))}\n{src_text()}"))
+            continue
+        if ft.path not in cobj["paths"] or ft.kind.value != cobj["kind"]:
+            fails.append(Fail("class", "wrong-object", f"{where}.{norm(n)}: Griffe resolves to {ft.kind.value} {norm(ft.path)}, CPython's object is {cobj['kind']} {norm(sorted(cobj['paths']))}\n{src_text()}"))
+    return fails
 
 
 _GRIFFE_KIND = {
@@ -345,7 +384,7 @@ def _alias_presents(alias, ft, cvalue, norm, src_text) -> list[Fail]:
                     if sub2.path != f"{alias.path}.{k}.{k2}":
                         bad("member-path", f"nested member {k}.{k2} has path {norm(sub2.path)}, expected {where}.{k}.{k2}")
         if ft.is_class and isinstance(cvalue, type):
-            cnames = {n for n in vars(cvalue) if not (n.startswith("__") and n.endswith("__")) or n in CLASS_DUNDERS_KEPT}
+            cnames = {n for n in vars(cvalue) if n not in CLASS_DUNDERS}
             if set(am) != cnames:
                 bad("members-vs-cpython", f"alias.members={sorted(am)}, vars(class)={sorted(cnames)}")
     return fails
@@ -396,7 +435,24 @@ def _known_same_module(case, fail: Fail) -> bool:
     return bool(info) and any(n in sim[m]["same_module_rebound"] for m, n in info["chain"])
 
 
+def _known_same_line(case, fail: Fail) -> bool:
+    """same-line-wildcard-override: the failing name (or a link of its import chain) is re-bound by a wildcard import
+    that shares its line with an earlier statement binding the same name (`a = 1; from .m import *`)."""
+    if fail.clause != "target" or not fail.kind.startswith(("wrong-object", "wrong-definition")):
+        return False
+    d = fail.detail or {}
+    sim = G.simulate(case)
+    mod = sim.get(d.get("module"))
+    if not mod:
+        return False
+    if d.get("name") in mod["same_line_rebound"]:
+        return True
+    info = mod["ns"].get(d.get("name"))
+    return bool(info) and any(n in sim[m]["same_line_rebound"] for m, n in info["chain"])
+
+
 KNOWN = {
+    "same-line-wildcard-override": _known_same_line,
     "stale-alias-after-wildcard-override": _known_stale_alias,
     "wildcard-rebinding-same-module-skipped": _known_same_module,
     "dot-import-submodule-not-exposed": _known_dot_import,
@@ -408,6 +464,8 @@ def _options(ctx) -> dict:
     return {
         "max_mods": 6,
         "max_stmts": ctx.scale(6, 8),
+        "allow_join": True,
+        "class_imports": True,
         "avoid": frozenset(k for k in G.KNOWN_STEERING if k in ctx.known),
         "on_excluded": ctx.excluded,
     }
